@@ -177,8 +177,8 @@ class FastHierarchyAnalyzer(HierarchyAnalyzerBase):
         choice_opt_idx = list(opt_idx_imp)
         activeness = list(np.array(choice_opt_idx) != X_INACTIVE_VALUE)
         outputs = (graph_instance, choice_opt_idx, activeness, None)
-        for key in tried:
-            self._imputation_cache[key] = outputs
+        self._imputation_cache[opt_idx_try] = outputs
+        self._imputation_cache[opt_idx_imp] = outputs
         return outputs
 
     def _iter_neighborhood(self, opt_idx: List[int], is_fixed: List[bool]) -> Generator[Tuple[int, ...], None, None]:
@@ -222,7 +222,7 @@ class FastHierarchyAnalyzer(HierarchyAnalyzerBase):
 
     def get_opt_idx(self, opt_idx: List[int], mask: np.ndarray = None, is_fixed: List[bool] = None,
                     exclude: set = None) -> Tuple[List[int], List[bool], Optional[int]]:
-        _, choice_opt_idx, activeness, i_comb = self.get_graph(opt_idx, mask=mask, is_fixed=is_fixed)
+        _, choice_opt_idx, activeness, i_comb = self.get_graph(opt_idx, mask=mask, is_fixed=is_fixed, exclude=exclude)
         return choice_opt_idx, activeness, i_comb
 
     def _get_comb_idx(self, opt_idx: List[int], include_mask: np.ndarray = None) \
